@@ -146,7 +146,7 @@ PROPS = {
     "C13": {
         "modules": ["CambrianModel.Props.C13"],
         "theorems": ["Cambrian.Props.C13_id", "Cambrian.Props.C13_step", "Cambrian.Props.C13_init_variant",
-                     "Cambrian.Props.C13_init_optional", "Cambrian.Props.C13_refine", "Cambrian.Props.C13_id_alg", "Cambrian.Props.C13_step_alg"],
+                     "Cambrian.Props.C13_init_optional", "Cambrian.Props.C13_refine", "Cambrian.Props.C13_id_alg", "Cambrian.Props.C13_step_alg", "Cambrian.Props.C13_key_fresh", "Cambrian.Props.C13_key_once", "Cambrian.Props.C13_key_form"],
         "correspondences": ["ops"],
         "trusted": OPS_TRUST,
         "assumptions": ["float laws used: none", "the input conforms to a well-formed spec",
@@ -172,8 +172,8 @@ PROPS = {
     "C08": {
         "modules": ["CambrianModel.Props.C08"],
         "theorems": ["Cambrian.Props.C08_seeds", "Cambrian.Props.C08_same", "Cambrian.Props.C08_count",
-                     "Cambrian.Props.C08_ids", "Cambrian.Props.C08_first"],
-        "correspondences": ["ctl", "pop", "codec", "spec"],
+                     "Cambrian.Props.C08_ids", "Cambrian.Props.C08_first", "Cambrian.Props.C08_config_pos"],
+        "correspondences": ["ctl", "pop", "codec", "spec", "run"],
         "trusted": CTL_TRUST,
         "assumptions": ["float laws used: none", "sample size >= 1 (AlgoConfigBuilder rejects 0)"],
     },
